@@ -26,6 +26,7 @@ import (
 	"path/filepath"
 	"sort"
 	"strings"
+	"sync"
 	"time"
 
 	"github.com/benbjohnson/litestream"
@@ -1027,6 +1028,65 @@ func sigOf(v string) string {
 	return "content-not-equivalent"
 }
 
+// gateClient wraps the file replica client so that one listing of a chosen level can be held
+// AFTER it has been read (the window in which a concurrent compaction may finish), and counts
+// the client calls made while the gate is closed (progress of the concurrent operation).
+type gateClient struct {
+	*file.ReplicaClient
+	mu       sync.Mutex
+	armed    bool
+	level    int
+	listed   chan struct{}
+	release  chan struct{}
+	activity int
+}
+
+func (g *gateClient) arm(level int) {
+	g.mu.Lock()
+	defer g.mu.Unlock()
+	g.armed, g.level, g.activity = true, level, 0
+	g.listed = make(chan struct{})
+	g.release = make(chan struct{})
+}
+
+func (g *gateClient) disarm() {
+	g.mu.Lock()
+	defer g.mu.Unlock()
+	g.armed = false
+}
+
+func (g *gateClient) activityN() int {
+	g.mu.Lock()
+	defer g.mu.Unlock()
+	return g.activity
+}
+
+func (g *gateClient) LTXFiles(ctx context.Context, level int, seek ltx.TXID, useMetadata bool) (ltx.FileIterator, error) {
+	itr, err := g.ReplicaClient.LTXFiles(ctx, level, seek, useMetadata)
+	g.mu.Lock()
+	hold := g.armed && level == g.level && seek == 0
+	var listed, release chan struct{}
+	if hold {
+		g.armed = false // one shot
+		listed, release = g.listed, g.release
+	} else if g.listed != nil {
+		g.activity++
+	}
+	g.mu.Unlock()
+	if hold {
+		close(listed)
+		<-release
+	}
+	return itr, err
+}
+
+func (g *gateClient) WriteLTXFile(ctx context.Context, level int, minTXID, maxTXID ltx.TXID, r io.Reader) (*ltx.FileInfo, error) {
+	g.mu.Lock()
+	g.activity++
+	g.mu.Unlock()
+	return g.ReplicaClient.WriteLTXFile(ctx, level, minTXID, maxTXID, r)
+}
+
 // ---------------------------------------------------------------- history stream
 
 type HOp struct {
@@ -1114,6 +1174,43 @@ func genHistRestart(r *hx.Rand) HistCase {
 	return h
 }
 
+// genHistRace: level N has files already consumed by level N+1 and new pending sources; restart
+// (cold max-file cache); `race N` = Store.CompactDB(N+1) probing level N concurrently with
+// Compact(N); then further writes and compactions of both levels judged by the usual oracles.
+func genHistRace(r *hx.Rand) HistCase {
+	h := HistCase{PageSize: []int{512, 1024}[r.Intn(2)], AutoVacuum: 0, Levels: 2 + r.Intn(2)}
+	n := 1
+	if h.Levels == 3 && r.Bool() {
+		n = 2
+	}
+	ws := func(k int) {
+		for i := 0; i < k; i++ {
+			h.Ops = append(h.Ops, HOp{Op: "insert", A: 1, B: 10 + r.Intn(400)}, HOp{Op: "sync"})
+		}
+	}
+	drainUpTo := func(top int) {
+		for l := 1; l <= top; l++ {
+			h.Ops = append(h.Ops, HOp{Op: "compact", A: l, B: 1})
+		}
+	}
+	rounds := 1 + r.Intn(2)
+	for k := 0; k < rounds; k++ {
+		ws(2 + r.Intn(3))
+		drainUpTo(n + 1)
+		ws(1 + r.Intn(2))
+		drainUpTo(n + 1) // level N's newest file is consumed by level N+1
+		ws(2 + r.Intn(2))
+		drainUpTo(n - 1) // pending sources for level N
+		h.Ops = append(h.Ops, HOp{Op: "restart", A: r.Intn(2)}, HOp{Op: "race", A: n})
+		ws(1 + r.Intn(2))
+		drainUpTo(n + 1)
+		ws(1)
+		drainUpTo(h.Levels)
+	}
+	h.Ops = append(h.Ops, HOp{Op: "snapshot"})
+	return h
+}
+
 func genHist(r *hx.Rand, nops int) HistCase {
 	h := HistCase{PageSize: []int{512, 1024, 4096}[r.Intn(3)], AutoVacuum: r.Intn(3), Levels: 1 + r.Intn(8), ViaStore: r.Chance(30)}
 	ntab := 1
@@ -1194,7 +1291,7 @@ func runHist(h HistCase, drv *hx.Driver, root string, n int) (hr histResult) {
 	ps := uint32(h.PageSize)
 	lock := ltx.LockPgno(ps)
 
-	client := file.NewReplicaClient(filepath.Join(dir, "replica"))
+	client := &gateClient{ReplicaClient: file.NewReplicaClient(filepath.Join(dir, "replica"))}
 	newDB := func() *litestream.DB {
 		d := litestream.NewDB(dbPath)
 		d.MonitorInterval = 0
@@ -1407,6 +1504,103 @@ func runHist(h HistCase, drv *hx.Driver, root string, n int) (hr histResult) {
 				hr.violation = why
 				return
 			}
+		case "race":
+			// Schedule (cold cache after a restart): Store.CompactDB(N+1) probes level N — its listing
+			// of level N is held after it has been read — while Compact(N) runs; the gate opens when
+			// Compact(N) has finished, or when it made no progress at all (it waits for the cache lock).
+			n := op.A
+			if n < 1 || n+1 > h.Levels {
+				break
+			}
+			if e := db.Sync(ctx); e != nil {
+				hx.Fatal(fmt.Errorf("db.Sync: %w", e))
+			}
+			if e := db.Replica.Sync(ctx); e != nil {
+				hx.Fatal(fmt.Errorf("replica.Sync: %w", e))
+			}
+			if why := archive(); why != "" {
+				hr.violation = why
+				return
+			}
+			if why := checkRestores(fmt.Sprintf("before op %d (race)", i), true); why != "" {
+				hr.violation = why
+				return
+			}
+			type cres struct {
+				info *ltx.FileInfo
+				err  error
+			}
+			client.arm(n)
+			c1 := make(chan cres, 1)
+			c2 := make(chan cres, 1)
+			cur := db
+			go func() { inf, e := store.CompactDB(ctx, cur, levels[n+1]); c1 <- cres{inf, e} }()
+			var r1, r2 cres
+			got1 := false
+			select {
+			case <-client.listed:
+			case r1 = <-c1:
+				got1 = true
+			case <-time.After(20 * time.Second):
+			}
+			if got1 {
+				client.disarm()
+				hr.stats["race:no-window"]++
+				r2.info, r2.err = db.Compact(ctx, n)
+			} else {
+				go func() { inf, e := cur.Compact(ctx, n); c2 <- cres{inf, e} }()
+				got2 := false
+				t0 := time.Now()
+				for !got2 {
+					select {
+					case r2 = <-c2:
+						got2 = true
+					case <-time.After(25 * time.Millisecond):
+					}
+					if got2 {
+						break
+					}
+					if el := time.Since(t0); (el > 600*time.Millisecond && client.activityN() == 0) || el > 30*time.Second {
+						break // Compact(N) is waiting for the cache lock held across the listing
+					}
+				}
+				if got2 {
+					hr.stats["race:compact-finished-inside-window"]++
+				} else {
+					hr.stats["race:compact-waited-for-lister"]++
+				}
+				close(client.release)
+				r1 = <-c1
+				if !got2 {
+					r2 = <-c2
+				}
+			}
+			for k, r := range []cres{r2, r1} {
+				lvl := n + k
+				if r.err != nil {
+					if errors.Is(r.err, litestream.ErrNoCompaction) || errors.Is(r.err, litestream.ErrCompactionTooEarly) {
+						hr.stats["compact-skipped"]++
+						continue
+					}
+					hr.violation = fmt.Sprintf("op %d: concurrent compaction of level %d fails: %v", i, lvl, r.err)
+					return
+				}
+				hr.stats[fmt.Sprintf("compact-ok-L%d", lvl)]++
+				if why := checkFile(r.info); why != "" {
+					hr.violation = why
+					return
+				}
+			}
+			for _, lvl := range []int{n, n + 1} {
+				if why := levelContiguous(ctx, client, lvl); why != "" {
+					hr.violation = why
+					return
+				}
+			}
+			if why := checkRestores(fmt.Sprintf("after op %d (race at level %d)", i, n), false); why != "" {
+				hr.violation = why
+				return
+			}
 		case "l0retention":
 			db.L0Retention = time.Nanosecond
 			if e := db.EnforceL0RetentionByTime(ctx); e != nil {
@@ -1581,7 +1775,7 @@ type replayFile struct {
 func main() {
 	o := hx.ParseFlags("C06")
 	res := hx.NewResult(o, "c06: ltx.Compactor / litestream.Compactor.Compact / DB.Compact+Snapshot+Restore vs Lean compact/compactPick + composition oracle")
-	res.Rule = "codec stream: seeded random chains of 1..7 logical LTX files (page size 512; growing/shrinking commits, in-chain full snapshots, overlapping and non-contiguous ranges, sparse pages around the lock page; plus long backlogs of 1,2,3,63,64,65,66,100,130,300 single-TXID files before one compaction at level 1 and of up to 130 (thorough 300) level-1 files before one compaction at level 2, compacted until ErrNoCompaction, with Restore(TXID=t) for every t) through the real encoder, ltx.Compactor, decoder and litestream.Compactor.Compact (levels 1..3 over a file replica, with and without max-file cache); history stream: seeded real SQLite histories (page sizes 512/1024/4096, auto_vacuum 0/1/2, inserts/updates/deletes/VACUUM/schema changes/checkpoints) with sync, Compact(level) for 1..8-level layouts (DB.Compact or Store.CompactDB), Snapshot (DB.Snapshot and level-9 Store.CompactDB), L0 retention, restart histories (Close + new DB object or crash-abandoned object, 0-2 idle syncs, then snapshot, with and without a following write+sync), backlog histories (65..130 tiny synced transactions before draining level 1, and as many level-1 files before draining level 2; thorough up to 300), Restore(TXID) of every TXID before and after every compaction. non-trivial = codec case with >=2 files, history with >=1 successful compaction; distinct = canonical JSON of the case"
+	res.Rule = "codec stream: seeded random chains of 1..7 logical LTX files (page size 512; growing/shrinking commits, in-chain full snapshots, overlapping and non-contiguous ranges, sparse pages around the lock page; plus long backlogs of 1,2,3,63,64,65,66,100,130,300 single-TXID files before one compaction at level 1 and of up to 130 (thorough 300) level-1 files before one compaction at level 2, compacted until ErrNoCompaction, with Restore(TXID=t) for every t) through the real encoder, ltx.Compactor, decoder and litestream.Compactor.Compact (levels 1..3 over a file replica, with and without max-file cache); history stream: seeded real SQLite histories (page sizes 512/1024/4096, auto_vacuum 0/1/2, inserts/updates/deletes/VACUUM/schema changes/checkpoints) with sync, Compact(level) for 1..8-level layouts (DB.Compact or Store.CompactDB), Snapshot (DB.Snapshot and level-9 Store.CompactDB), L0 retention, cache-race schedules (after a restart, Store.CompactDB(N+1) probing level N with its listing held after it was read while Compact(N) runs; then further writes and compactions), restart histories (Close + new DB object or crash-abandoned object, 0-2 idle syncs, then snapshot, with and without a following write+sync), backlog histories (65..130 tiny synced transactions before draining level 1, and as many level-1 files before draining level 2; thorough up to 300), Restore(TXID) of every TXID before and after every compaction. non-trivial = codec case with >=2 files, history with >=1 successful compaction; distinct = canonical JSON of the case"
 	tmp, err := os.MkdirTemp("", "c06-")
 	if err != nil {
 		hx.Fatal(err)
@@ -1717,6 +1911,15 @@ func main() {
 	}
 	for k, hb := range histBack {
 		if histFail < 2 && !evalHist(genHistBacklog(rnd.Fork(), hb[0], hb[1] == 1), 500000+k) {
+			histFail++
+		}
+	}
+	nRace := 4
+	if o.Tier == "thorough" {
+		nRace = 40
+	}
+	for k := 0; k < nRace && histFail < 2; k++ {
+		if !evalHist(genHistRace(rnd.Fork()), 800000+k) {
 			histFail++
 		}
 	}
